@@ -191,7 +191,7 @@ func runCheck(o *Options) int {
 			}
 			nContracts++
 			defSafety := ct.PkgName != "leveldb"
-			r := w.verifyFunc(fi, ct, defSafety, o.Prop)
+			r := w.verifyFunc(fi, propView(ct, o.Prop), defSafety, o.Prop)
 			results = append(results, r)
 		case "lemma":
 			nContracts++
